@@ -297,7 +297,8 @@ def execField (B : Build) (fld op : String) (args : List String) : String :=
     | "ser_flags", [k, fl, a] => match fe a, k.toNat?, fl.toNat? with
         | some x, some kind, some flag =>
           let mask := match kind, flag with
-            | 0, _ => 0 | 1, 1 => 128 | 1, _ => 0 | _, 1 => 128 | _, 2 => 64 | _, _ => 0
+            | 0, _ => 0 | 1, 1 => 128 | 1, _ => 0 | 2, 1 => 128 | 2, 2 => 64 | 2, _ => 0
+            | k, f => if k ≥ 8 then f % 256 else (f % 2 ^ k) * 2 ^ (8 - k)
           (match F.serWithFlags x (FP.flagBitsOf kind) mask with | some bs => toHex bs | none => "err")
         | _, _, _ => "bad-op"
     | "deser_flags", [k, h] => match parseHex h, k.toNat? with
@@ -499,6 +500,10 @@ def execGadget (op : String) (args : List String) : String :=
       | some a, some b => gOut (C17.onCurve a.1 a.2 && C17.onCurve b.1 b.2 && R1cs.isEq a b) "-" | _, _ => "bad-elem"
   | "enforce_neq" => match elemArg args "a", elemArg args "b" with
       | some a, some b => gOut (C17.onCurve a.1 a.2 && C17.onCurve b.1 b.2 && !R1cs.isEq a b) "-" | _, _ => "bad-elem"
+  | "cenforce_eq" => match elemArg args "a", elemArg args "b" with
+      | some a, some b => gOut (C17.onCurve a.1 a.2 && C17.onCurve b.1 b.2 && (kvGet args "c" != some "1" || R1cs.isEq a b)) "-" | _, _ => "bad-elem"
+  | "cenforce_neq" => match elemArg args "a", elemArg args "b" with
+      | some a, some b => gOut (C17.onCurve a.1 a.2 && C17.onCurve b.1 b.2 && (kvGet args "c" != some "1" || !R1cs.isEq a b)) "-" | _, _ => "bad-elem"
   | "select" => match elemArg args "a", elemArg args "b" with
       | some a, some b => gOut (C17.onCurve a.1 a.2 && C17.onCurve b.1 b.2) (finOut args (if kvGet args "c" == some "1" then a else b))
       | _, _ => "bad-elem"
